@@ -455,6 +455,9 @@ func RunStandalone(kind, script string, timeout time.Duration) string {
 	switch kind {
 	case "z3":
 		cmd = exec.Command("z3", "-in", fmt.Sprintf("-t:%d", ms))
+	case "z3-validate":
+		// the solver checks its own model against the assertions
+		cmd = exec.Command("z3", "-in", "model_validate=true", fmt.Sprintf("-t:%d", ms))
 	case "z3-new":
 		cmd = exec.Command("z3-new", "-in", fmt.Sprintf("-t:%d", ms))
 	case "cvc5":
@@ -469,6 +472,10 @@ func RunStandalone(kind, script string, timeout time.Duration) string {
 		out, _ := cmd.CombinedOutput()
 		res := "error"
 		txt := string(out)
+		if kind == "z3-validate" && strings.Contains(txt, "invalid model") {
+			done <- "invalid-model"
+			return
+		}
 		if strings.Contains(txt, "(error") {
 			done <- "error"
 			return
